@@ -138,7 +138,10 @@ StepOut(c, s, it, dlvAll) ==
              b4 == IF it.mid >= 1 /\ s.ann # [t |-> "opened", v |-> m.st]
                    THEN {<<"C22", "message delivered outside the epoch announced to the recipient / submitted in", c>>} ELSE {}
              b5 == IF it.mid >= 1 /\ m.rel # "cur" THEN {<<"C20", "a message stamped with an epoch other than the server's was forwarded", c>>} ELSE {}
-         IN [s EXCEPT !.dlv = @ \cup {it.v}, !.bad = @ \cup b1 \cup b2 \cup b3 \cup b4 \cup b5]
+             \* the recipient had already been told a newer epoch than the one the message was submitted for
+             b6 == IF it.mid >= 1 /\ s.ann.t = "opened" /\ s.ann.v > m.st
+                   THEN {<<"C20", "a message submitted for an older epoch was forwarded after the recipient had been told a newer one", c>>} ELSE {}
+         IN [s EXCEPT !.dlv = @ \cup {it.v}, !.bad = @ \cup b1 \cup b2 \cup b3 \cup b4 \cup b5 \cup b6]
     [] it.t = "ack" ->
          LET ok == \E x \in Calls : Reverse(x, c) /\ <<x, it.v>> \in acks /\ it.v \in dlvAll[x]
          IN IF ok THEN s ELSE [s EXCEPT !.bad = @ \cup {<<"C21", "ack forwarded for a message the partner was never handed or never acked", c>>}]
